@@ -355,7 +355,7 @@ func c11Wiring(c *Check) {
 				return true
 			}
 			o, ok := info.Uses[id].(*types.Var)
-			if !ok || o.IsField() || o.Parent() == nil || o.Pos() > is.Pos() || !posIn(r.FI.Decl.Body, o.Pos()) {
+			if !ok || o.IsField() || o.Parent() == nil || o.Pos() > is.Pos() || !localIn(r.FI.Decl.Body, o) {
 				return true
 			}
 			if _, isSlice := o.Type().Underlying().(*types.Slice); isSlice && types.Identical(o.Type(), guard.Type()) {
